@@ -409,7 +409,7 @@ static Result run_fit(const json &c) {
   std::vector<double> fr = c.at("frac").get<std::vector<double>>();     // data abscissae as (interval + fraction)
   std::vector<double> kv = c.at("knotvalues").get<std::vector<double>>();
   std::vector<double> noise = c.at("noise").get<std::vector<double>>();
-  if (type == "akima" || !(fg[1] > 0) || !(fg[2] > fg[0]) || (fg[2] - fg[0]) / fg[1] > 400 || !all_finite(kv) || !all_finite(noise)) {
+  if (type == "akima" || !(fg[1] > 0) || !(fg[2] - fg[0] >= fg[1]) || (fg[2] - fg[0]) / fg[1] > 400 || !all_finite(kv) || !all_finite(noise)) {
     r.discard = true;
     return r;
   }
@@ -550,7 +550,7 @@ static json gen_fit() {
   int nint = rcount(type == "cubic" ? 2 : 1, 24);
   double mn = pick<double>({0.0, 0.0, 0.25, -2.0, 10.0});
   double step = rbool(50) ? double(ri(1, 64)) / 64.0 : double(ri(1, 100)) / 100.0;
-  double mx = rbool(60) ? mn + double(nint) * step : mn + (double(nint) - 1 + double(ri(8, 56)) / 64.0) * step;
+  double mx = rbool(60) ? mn + double(nint) * step : mn + (double(nint) + double(ri(8, 56)) / 64.0) * step;
   c["type"] = type;
   c["fitgrid"] = {mn, step, mx};
   std::vector<double> kv, fr, nz;
